@@ -58,36 +58,58 @@ def run(prog, ctx):
                 if eq:
                     res.discharged += 1
                     res.sample({"rule": "C06.L", "fn": f.id, "guard": "%s == %s" % (show(eq[0][1]), show(eq[0][2]))})
+                elif any(x[0] == "Eq" and len(x) == 3 and lgk_like(x[1]) and lgk_like(x[2]) and sym.contains(x[1], lambda t: t[0] == "var") or (x[0] == "Eq" and len(x) == 3 and sym.contains(x[2], lambda t: t[0] == "var")) for x in fx):
+                    res.undecided += 1      # an equality over values held in reassigned locals: origin not resolved
                 else:
-                    res.violate("C06.L", "C06.L|%s" % f.id, "%s clones the input sketch into the union state without an equality guard on lg_k; guards: %s" % (
+                    res.violate("C06.L", "C06.L|%s" % f.id, "%s clones the input sketch into the union state without an equality guard between its lg_k and the union's lg_k; guards: %s" % (
                         f.id, [(x[0], show(x[1])[:40], show(x[2])[:40] if len(x) > 2 else "") for x in fx][:5]), f.id, site["span"])
     res.rule("C06.L", n_l, 1, "input adoptions")
 
     # ---------------- C06.K reduce_k
     s = Sym(prog, upd)
-    rk = [(b, site) for b, site in upd.calls() if (site.get("callee") or "").endswith("::reduce_k")]
+    # the reduction routine is recognised by effect: the callee of update() that (transitively) stores CpcUnion.lg_k
+    def stores_lgk(callee):
+        return bool(callee) and callee in prog.fns and any(True for g in C.reach_from(prog, [callee]) for _ in sym.field_stores(prog, adt=U, field="lg_k", fns=[g]))
+    rk = [(b, site) for b, site in upd.calls() if stores_lgk(site.get("callee"))]
     res.obligations += 2
     n_k = len(rk)
     if rk:
         b, site = rk[0]
         fx = s.cmp_facts_at(b)
-        ok = any(len(x) == 3 and ((x[0] == "Lt" and "sketch" in show(x[1]) and "self" in show(x[2])) or (x[0] == "Gt" and "sketch" in show(x[2]) and "self" in show(x[1]))) and lgk_like(x[1]) and lgk_like(x[2]) for x in fx)
-        extra = [x for x in fx if len(x) == 3 and x[0] in ("Lt", "Gt", "Le", "Ge", "Eq", "Ne") and not (lgk_like(x[1]) and lgk_like(x[2]))]
-        # the only other guard allowed is the early return on an empty input (flavor != Empty)
-        if ok and len(extra) <= 2:
+
+        def mentions(e, idx):
+            return sym.contains(e, lambda t: t[0] == "param" and t[1] == idx)
+        verdict = None
+        for x in fx:
+            if len(x) == 3 and x[0] in ("Lt", "Gt", "Le", "Ge") and lgk_like(x[1]) and lgk_like(x[2]):
+                a_, c_, op = x[1], x[2], x[0]
+                if op in ("Gt", "Ge"):
+                    a_, c_, op = c_, a_, {"Gt": "Lt", "Ge": "Le"}[op]
+                # a_ <(=) c_
+                in_a, self_a = any(mentions(a_, i) for i in range(2, upd.argc + 1)), mentions(a_, 1)
+                in_c, self_c = any(mentions(c_, i) for i in range(2, upd.argc + 1)), mentions(c_, 1)
+                if in_a and not self_a and self_c and not in_c:
+                    verdict = True if op == "Lt" else False       # input.lg_k < self.lg_k (a non-strict guard would reduce needlessly but harmlessly: flag it)
+                elif self_a and not in_a and in_c and not self_c:
+                    verdict = False                                 # reversed: reduces when the input is *larger*
+        if verdict is True:
             res.discharged += 1
+        elif verdict is False:
+            res.violate("C06.K", "C06.K|guard", "the lg_k reduction is not called exactly under `input.lg_k < self.lg_k` (guards: %s)" % [(x[0], show(x[1])[:40], show(x[2])[:40] if len(x) > 2 else "") for x in fx], upd.id, site["span"])
         else:
-            res.violate("C06.K", "C06.K|guard", "reduce_k is not called exactly under `sketch.lg_k < self.lg_k` (guards: %s)" % [(x[0], show(x[1])[:40], show(x[2])[:40] if len(x) > 2 else "") for x in fx], upd.id, site["span"])
+            res.undecided += 1
         # before every merge step
         merges = [bb for bb, st in upd.calls() if any((st.get("callee") or "").endswith(x) for x in ("or_table_into_matrix", "or_window_into_matrix", "or_matrix_into_matrix", "walk_table_updating_sketch", "build_bit_matrix"))]
         sw = [d for d in s._dom_chain(b) if upd.blocks[d].term[0] == "switch"]
         guard_block = sw[0] if sw else b
         if merges and all(upd.dominates(guard_block, m) for m in merges):
             res.discharged += 1
+        elif not merges:
+            res.undecided += 1
         else:
             res.violate("C06.K", "C06.K|order", "a merge step in CpcUnion::update is not dominated by the lg_k reduction check", upd.id)
     else:
-        res.violate("C06.K", "C06.K|missing", "CpcUnion::update no longer calls reduce_k", upd.id)
+        res.undecided += 2      # no callee of update() stores the union's lg_k: the reduction is not where this rule looks
     rkf = C.fn_one(prog, U, "reduce_k")
     if rkf is not None:
         res.obligations += 1
@@ -96,8 +118,10 @@ def run(prog, ctx):
         vals = [s2.rvalue(rv) for (f, b, kind, place, rv, span, adt, fld) in sym.field_stores(prog, adt=U, field="lg_k", fns=[rkf]) if rv is not None]
         if st and not s2.reaches_exit_avoiding(0, set(st)) and all(v[0] == "param" for v in vals):
             res.discharged += 1
-        else:
+        elif st and s2.reaches_exit_avoiding(0, set(st)):
             res.violate("C06.K", "C06.K|store", "a path through reduce_k does not store the new lg_k", rkf.id)
+        else:
+            res.undecided += 1
     res.rule("C06.K", n_k, 1, "reduce_k call sites")
 
     # ---------------- C06.O OR-only stores, destination mask, call-site lg agreement
@@ -109,16 +133,24 @@ def run(prog, ctx):
                 continue
             n_o += 1
             res.obligations += 2
-            if C.is_bin(val, "BitOr") and sym.contains(val, lambda t: t[0] == "index" and t[1] == base):
+            has_old = sym.contains(val, lambda t: (t[0] == "index" and t[1] == base) or (t[0] == "call" and t[1].rsplit("::", 1)[-1] in ("index", "index_mut") and t[2] and t[2][0] == base))
+            has_or = sym.contains(val, lambda t: C.is_bin(t, "BitOr"))
+            if has_old and has_or:
                 res.discharged += 1
+            elif not has_old:
+                res.violate("C06.O", "C06.O|%s|or" % f.id, "store into the destination matrix in %s is %s: the old row content is overwritten, expected `old | bits`" % (f.id, show(val)[:80]), f.id, span)
             else:
-                res.violate("C06.O", "C06.O|%s|or" % f.id, "store into the destination matrix in %s is %s, expected `old | bits`" % (f.id, show(val)[:80]), f.id, span)
+                res.undecided += 1
             m = C.shl_one_amount(ie)
-            if m is not None and m[0] == "param" and "dst" in (m[2] or ""):
+            d_idx = base[1]
+            if m is not None and m[0] == "param" and m[1] == d_idx + 1:
                 res.discharged += 1
                 res.sample({"rule": "C06.O", "fn": f.id, "row": show(ie), "value": show(val)[:60]})
+            elif m is not None and m[0] == "param" and m[1] != d_idx + 1 and m[1] >= 2 and not f.local_ty(m[1] - 1).startswith(("u8", "usize", "u32")) and (m[1] - 1) != d_idx:
+                # the mask is built from the size parameter that follows the *other* (source) container
+                res.violate("C06.O", "C06.O|%s|mask" % f.id, "destination row in %s is %s: the mask uses the size of the source, expected src_row & (2^dst_lg_k - 1)" % (f.id, show(ie)), f.id, span)
             else:
-                res.violate("C06.O", "C06.O|%s|mask" % f.id, "destination row in %s is %s, expected src_row & (2^dst_lg_k - 1)" % (f.id, show(ie)), f.id, span)
+                res.undecided += 1
     res.rule("C06.O", n_o, 3, "matrix stores in the or_* routines")
     n_c = 0
     for f in ufns:
@@ -140,6 +172,8 @@ def run(prog, ctx):
                     wtxt = "self.lg_k"
                 if ok:
                     res.discharged += 1
+                elif sym.contains(a1, lambda t: t[0] == "var") or (alloc is not None and want is None):
+                    res.undecided += 1
                 else:
                     res.violate("C06.O", "C06.O|%s|dst-lg" % f.id, "%s passes lg %s with a destination matrix of lg %s" % (f.id, show(a1), wtxt), f.id, site["span"])
     # source-side lg arguments read from `self` must be the value the source matrix was built with: no store to that field
@@ -198,14 +232,18 @@ def run(prog, ctx):
     if nc and all(sym.contains(e, lambda t: t[0] == "call" and t[1].endswith("count_bits_set_in_matrix")) for _, e, _ in nc):
         res.discharged += 1
         n_t += 1
+    elif nc and all(e[0] == "const" or (e[0] == "field" and e[1] == ("param", 1, "self")) for _, e, _ in nc):
+        res.violate("C06.T", "C06.T|num_coupons", "to_sketch does not set num_coupons to the population count of the matrix (stores %s)" % [show(e)[:40] for _, e, _ in nc], tsk.id)
     else:
-        res.violate("C06.T", "C06.T|num_coupons", "to_sketch does not set num_coupons to the population count of the matrix", tsk.id)
+        res.undecided += 1
     wo = stores.get("window_offset", [])
     if wo and all(sym.contains(e, lambda t: t[0] == "call" and t[1].endswith("determine_correct_offset")) or "determine_correct_offset" in repr(e) or e[0] == "select" for _, e, _ in wo):
         res.discharged += 1
         n_t += 1
+    elif wo and all(e[0] == "const" or (e[0] == "field" and e[1] == ("param", 1, "self")) for _, e, _ in wo):
+        res.violate("C06.T", "C06.T|offset", "to_sketch does not derive window_offset from the coupon count (stores %s)" % [show(e)[:40] for _, e, _ in wo], tsk.id)
     else:
-        res.violate("C06.T", "C06.T|offset", "to_sketch does not derive window_offset from determine_correct_offset(lg_k, num_coupons)", tsk.id)
+        res.undecided += 1
     mf = stores.get("merge_flag", [])
     mblocks = set(b for b, e, _ in mf if e == ("const", True))
     # every return of a non-empty sketch passes a merge_flag = true store: paths avoiding those blocks may only be the empty-accumulator path
@@ -221,23 +259,43 @@ def run(prog, ctx):
             if not guarded or s.reaches_exit_avoiding(0, mblocks | set(guarded)):
                 avoid_ok = False
         okm = avoid_ok
+    cp_fields = [x[0] for v in prog.adts.get("cpc::sketch::CpcSketch", {}).get("variants", []) for x in v.get("fields", [])]
     if okm:
         res.discharged += 1
         n_t += 1
+    elif "merge_flag" not in cp_fields:
+        res.undecided += 1
     else:
         res.violate("C06.T", "C06.T|merge_flag", "a path of to_sketch returns a non-empty sketch without setting merge_flag", tsk.id)
-    fic = stores.get("first_interesting_column", [])
-    okc = False
-    for b, e, span in fic:
-        if "determine_correct_offset" in repr(e) or (e[0] in ("var", "select")):
-            fx = [x for x in s.cmp_facts_at(b) if len(x) == 3 and x[0] in ("Gt", "Lt")]
-            if any("first_interesting_column" in show(x[1]) + show(x[2]) for x in fx):
-                okc = True
-    if okc:
-        res.discharged += 1
+    # first_interesting_column of the result = min(first surprising column, window offset), by value
+    verdict = None
+    fic_locals = set(place[0] for (f_, b_, kind, place, rv, span, adt, fld) in sym.field_stores(prog, adt="cpc::sketch::CpcSketch", field="first_interesting_column", fns=[tsk]) if kind == "assign")
+    why = ""
+    for loc in sorted(fic_locals):
+        ef = s.field_exit_value_seq("first_interesting_column", self_local=loc)
+        if ef is None:
+            continue
+        try:
+            verdict = True
+            for off in (0, 1, 7, 30, 56):
+                for tz in (0, 1, 5, 8, 31, 56, 63, 64):
+                    env = {"@prog": prog, "@fn:determine_correct_offset": lambda *a_, _o=off: _o, "@lenient": ("determine_correct_offset",)}
+                    for k_, n_ in formula.leaves(ef).items():
+                        if n_[0] == "var":
+                            env[k_] = (1 << tz) if tz < 64 else 0
+                        elif n_[0] == "discr":
+                            env[k_] = 1          # the bit-matrix state (the accumulator state returns its sketch unchanged)
+                    got = formula.evaluate(ef, env)
+                    if got != min(tz, off):
+                        verdict = False
+                        why = "first surprising column %d, offset %d: %r" % (tz, off, got)
+        except formula.Uneval:
+            verdict = None
+        break
+    res.obligations -= 1
+    res.tri(verdict, "C06.T", "C06.T|fic-clamp", "to_sketch does not leave min(first surprising column, window offset) in first_interesting_column (%s)" % why, tsk.id)
+    if verdict:
         n_t += 1
-    else:
-        res.violate("C06.T", "C06.T|fic-clamp", "to_sketch does not clamp first_interesting_column to the offset under `fic > offset`", tsk.id)
     res.rule("C06.T", n_t, 4, "to_sketch obligations")
     res.explanation = ("structural rules over the %d functions reachable from CpcUnion::{update,to_sketch}: adoption guard, reduce_k ordering and "
                        "lg_k store, OR-only masked stores with destination-lg agreement at every call site, to_sketch bookkeeping" % len(reach))
